@@ -92,7 +92,30 @@ fn views_agree(scn: &ChatScn, w: &mut World, v: &View, goals: &mut BTreeSet<Stri
             let members: BTreeSet<String> = v.m.chans.get(ch).map(|c| c.members.keys().cloned().collect()).unwrap_or_default();
             // "to a client entitled to see them": an outsider of a secret channel is shown nothing
             let hidden = v.m.chans.get(ch).map_or(false, |c| c.fs) && !v.nick(viewer).map_or(false, |n| members.contains(n));
-            let roster: BTreeSet<String> = if hidden { BTreeSet::new() } else { members };
+            // an invisible member is shown to those who share the channel with it; whether a client
+            // that shares only another channel with it sees it here is left open (NAMES does not
+            // show it, WHO and WHOIS do); a client sharing no channel with it does not see it
+            let viewer_nick = v.nick(viewer).unwrap_or("").to_string();
+            let viewer_in = members.contains(&viewer_nick);
+            let mut may: BTreeSet<String> = BTreeSet::new();
+            let mut roster: BTreeSet<String> = BTreeSet::new();
+            if !hidden {
+                for n in &members {
+                    let inv = v.m.users.get(n).map_or(false, |u| u.i);
+                    if !inv || viewer_in || *n == viewer_nick {
+                        roster.insert(n.clone());
+                    } else if v.m.share_channel(n, &viewer_nick) {
+                        may.insert(n.clone());
+                        goals.insert("invisible-elsewhere".into());
+                    } else {
+                        goals.insert("invisible-hidden".into());
+                    }
+                    if inv && viewer_in && *n != viewer_nick {
+                        goals.insert("invisible-co-member".into());
+                    }
+                }
+            }
+            let agrees = |s: &BTreeSet<String>| roster.is_subset(s) && s.iter().all(|n| roster.contains(n) || may.contains(n));
             if hidden {
                 goals.insert("secret-outsider".into());
             } else if v.m.chans.get(ch).map_or(false, |c| c.fs) {
@@ -117,13 +140,13 @@ fn views_agree(scn: &ChatScn, w: &mut World, v: &View, goals: &mut BTreeSet<Stri
             if roster.len() >= 2 {
                 goals.insert("two-members".into());
             }
-            if n_set != roster {
+            if !agrees(&n_set) {
                 out.push(finding("views:names-vs-roster", format!("viewer slot {} NAMES {} = {:?} but members are {:?}", viewer, ch, n_set, roster)));
             }
-            if w_set != roster {
+            if !agrees(&w_set) {
                 out.push(finding("views:who-vs-roster", format!("viewer slot {} WHO {} = {:?} but members are {:?}", viewer, ch, w_set, roster)));
             }
-            if via_whois != roster {
+            if !agrees(&via_whois) {
                 out.push(finding("views:whois-vs-roster", format!("viewer slot {} WHOIS lists {} for {:?} but members are {:?}", viewer, ch, via_whois, roster)));
             }
             // the rank prefixes shown by the three views agree too
@@ -283,6 +306,21 @@ pub fn last_kick() -> ChatScn {
     s
 }
 
+/// Invisible members: whoever shares the channel sees them in all three views.
+pub fn invisible(full: bool) -> ChatScn {
+    let mut s = scenario("c04-invisible", false);
+    s.alphabet_for.retain(|(_, t)| ["JOIN #x", "JOIN #y", "JOIN #x,#y", "PART #x"].contains(t) || (full && *t == "NICK {alt}"));
+    for slot in 0..3 {
+        s.alphabet_for.push((slot, "MODE {me} +i"));
+        if full {
+            s.alphabet_for.push((slot, "MODE {me} -i"));
+        }
+    }
+    s.ends = vec![];
+    s.goals = vec!["views-compared", "two-members", "invisible-co-member", "invisible-hidden", "invisible-elsewhere"];
+    s
+}
+
 pub fn quota() -> ChatScn {
     let mut s = scenario("c04-quota", false);
     s.cfg.max_joins = Some(1);
@@ -314,6 +352,7 @@ pub fn plan(quick: bool) -> Plan {
     parts.push(Part::Bfs(Box::new(ghost(!quick)), lim(if quick { 6 } else { 8 }, 2_000_000, if quick { 20.0 } else { 600.0 })));
     parts.push(Part::Bfs(Box::new(secret(!quick)), lim(if quick { 4 } else { 6 }, 2_000_000, if quick { 20.0 } else { 600.0 })));
     parts.push(Part::Bfs(Box::new(quota()), lim(if quick { 4 } else { 6 }, 2_000_000, if quick { 20.0 } else { 600.0 })));
+    parts.push(Part::Bfs(Box::new(invisible(!quick)), lim(if quick { 4 } else { 6 }, 2_000_000, if quick { 20.0 } else { 600.0 })));
     parts.push(Part::Bfs(Box::new(last_kick()), lim(if quick { 5 } else { 7 }, 2_000_000, if quick { 20.0 } else { 600.0 })));
     if quick {
         parts.push(Part::Bfs(Box::new(scenario("c04-churn", false)), lim(6, 3_000_000, 40.0)));
